@@ -65,6 +65,30 @@ STMT_TAGS = {"expr", "print", "let", "fn", "class", "if", "while", "for", "break
              "try", "raise", "launch", "export", "import"}
 TERMINATORS = {"break", "continue", "return", "raise", "implicit"}
 PROBE = ("expr", ("list", [("num", float(i)) for i in range(14)]))
+_N = lambda x: ("num", float(x))  # noqa: E731
+# statements that put rarely generated instructions into drawn blocks (so that jumps, loops and handlers cross them:
+# an instruction whose encoded length the compiler gets wrong moves every target behind it off a boundary)
+ZOO = [
+    [PROBE],
+    [("expr", ("chan", _N(2)))],
+    [("expr", ("chan", None))],
+    [("let", "zqc", ("chan", _N(1))), ("expr", ("send", ("var", "zqc"), _N(1))), ("let", "zqr", ("recv", ("var", "zqc")))],
+    [("let", "zqt", ("tuple", [_N(1), _N(2), ("str", "t")]))],
+    [("let", "zqm", ("map", [(_N(1), _N(2)), (("str", "k"), ("list", []))]))],
+    [("let", "zqi", ("interp", ["a", _N(1), "b", ("str", "c"), "d"]))],
+    [("try", [("raise", ("call", ("var", "Error"), [("str", "zoo")]))], [("zqe", None, [("expr", ("prop", ("var", "zqe"), "message"))])])],
+    [("try", [("expr", _N(1))], [("zqe", "TypeError", []), ("zqf", "Error", [])])],
+    [("for", "zqk", ("call", ("prop", _N(2), "times"), []), [("expr", ("var", "zqk"))])],
+    [("launch", ("call", ("lambda", [], ("expr", _N(1))), []))],
+    [("let", "zql", ("lambda", ["a", "b"], ("expr", ("bin", "+", ("var", "a"), ("var", "b"))))),
+     ("expr", ("call", ("var", "zql"), [_N(1), _N(2)]))],
+    [("let", "zqo", ("list", [_N(1)])), ("expr", ("assign", ("index", ("var", "zqo"), _N(0)), _N(5))),
+     ("expr", ("opassign", "+", ("index", ("var", "zqo"), _N(0)), _N(1)))],
+    [("let", "zqb", _N(1)), ("let", "zqg", ("lambda", [], ("block", [("expr", ("opassign", "+", ("var", "zqb"), _N(1))), ("return", ("var", "zqb"))]))),
+     ("expr", ("call", ("var", "zqg"), []))],
+    [("expr", ("tern", ("bin", "&&", ("true",), ("bin", "||", ("nil",), _N(1))), _N(2), _N(3)))],
+    [("expr", ("un", "!", ("un", "-", _N(1))))],
+]
 
 
 def _stmt_lists(node, path, out):
@@ -98,7 +122,8 @@ def insert_probe(prog, sel):
             limit = i
             break
     pos = (sel // len(lists)) % (limit + 1)
-    new = node[:pos] + [PROBE] + node[pos:]
+    zoo = ZOO[(sel // (len(lists) * (limit + 1))) % len(ZOO)] if (sel & 1) else [PROBE]
+    new = node[:pos] + list(zoo) + node[pos:]
     return shrink._replace(prog, path, new)
 
 
